@@ -844,3 +844,52 @@ Proof.
   - left. exact H.
   - right. split; assumption.
 Qed.
+
+(** * Another writer between an interrupted Commit and its re-run: a branch whose reflog already
+    carries the transaction id is never written again, whatever its head is now *)
+Lemma loop_writes_unlogged : forall id lg m s ws r,
+  commit_loop id lg m s = (ws, r) ->
+  forall b c t, In (WSetWithLog b c t) ws -> lg b = None.
+Proof.
+  intros id lg. induction m as [|[b0 sum] m IH]; intros s ws r H b c t Hin.
+  - cbn in H. inversion H; subst. destruct Hin as [Hw|[]]. discriminate.
+  - cbn [commit_loop] in H. destruct (lg b0) as [c0|] eqn:E0.
+    + destruct (stored s c0); [eapply IH; eauto|]. inversion H; subst. destruct Hin.
+    + destruct (stored s sum); [|inversion H; subst; destruct Hin].
+      destruct (commit_loop id lg m _) as [ws' r'] eqn:El. inversion H; subst.
+      cbn in Hin. destruct Hin as [Hw|[Hw|Hin]].
+      * discriminate.
+      * inversion Hw; subst. assumption.
+      * eapply IH; eauto.
+Qed.
+
+Lemma apply_all_branch_frame : forall b ws s,
+  (forall c t, ~ In (WSetWithLog b c t) ws) ->
+  heads (apply_all ws s) b = heads s b /\ logs (apply_all ws s) b = logs s b.
+Proof.
+  intros b. induction ws as [|w ws IH]; intros s Hno; [split; reflexivity|].
+  rewrite apply_all_cons.
+  assert (Hno' : forall c t, ~ In (WSetWithLog b c t) ws) by (intros c t Hi; apply (Hno c t); now right).
+  destruct (IH (apply s w) Hno') as [E1 E2]. rewrite E1, E2.
+  destruct w as [c|b' c t|i st|i b'|i]; cbn [apply]; try (split; reflexivity).
+  - destruct (N.eq_dec b' b) as [->|Hne]; [exfalso; apply (Hno c t); now left|].
+    cbn. rewrite !upd_other by congruence. split; reflexivity.
+  - destruct (txs s i); split; reflexivity.
+  - destruct (txs s i) as [[|]|]; split; reflexivity.
+Qed.
+
+Theorem landed_branch_untouched : forall id s (ord : order) n b c,
+  tx_log_new id (logs s b) = Some c ->
+  let s1 := fst (run_upto n (tx_commit ord id s) s) in
+  heads s1 b = heads s b /\ logs s1 b = logs s b.
+Proof.
+  intros id s ord n b c Hl s1. subst s1. cbn [run_upto fst]. apply apply_all_branch_frame.
+  intros c' t Hin.
+  assert (Hin' : In (WSetWithLog b c' t) (fst (tx_commit ord id s))).
+  { revert Hin. generalize (fst (tx_commit ord id s)). intros l. revert n.
+    induction l as [|x l IHl]; intros [|n] H; cbn in H; try contradiction.
+    destruct H as [H|H]; [now left | right; eapply IHl; eauto]. }
+  unfold tx_commit in Hin'. destruct (txs s id) as [[|]|]; try (cbn in Hin'; contradiction).
+  destruct (commit_loop id (fun b0 => tx_log_new id (logs s b0)) (ord (staged s id)) s) as [ws r] eqn:E.
+  cbn in Hin'. pose proof (loop_writes_unlogged _ _ _ _ _ _ E b c' t Hin') as Hn. cbn in Hn. congruence.
+Qed.
